@@ -9,6 +9,8 @@
                                            through the creation of its lock; tightens lo to this instant)
      CancelArrived(f, s = "outer", r)      cancel() called on the returned future by a thread of role r
                                            (r = "timeout": the executor's own worker thread)
+     CancelArrivedRet(f, s = "outer", r)   ... that call has returned (a cancel() may take time: while the worker thread
+                                           is inside one it cannot attempt another future's cancel)
      CancelCall(f)                         a client calls cancel() on the returned future
      InvokeEnd(f, a, b)                    the underlying work of f ended (a = 0 value / >0 exception, b = id)
      Observed(f, s, a, b)                  the returned future was seen in a new state s (a,b = outcome)
@@ -29,6 +31,7 @@ ObsInit == [tmo |-> EmptyMap,   \* f -> timeout
             done |-> EmptyMap,  \* f -> time at which the future was first seen terminal
             ucan |-> {},        \* futures a client tried to cancel
             created |-> {},     \* futures whose creation was observed
+            busy |-> 0,         \* time at which the worker thread's latest cancel() call returned
             endo |-> EmptyMap]  \* f -> <<a, b>> outcome of the underlying work
 
 IsTimeoutCancel(e) == e.ev = "CancelArrived" /\ e.s = "outer" /\ e.r = "timeout"
@@ -40,6 +43,7 @@ ObsNext(st, e) ==
           [st EXCEPT !.lo = Put(@, e.f, e.t + st.tmo[e.f]), !.created = @ \cup {e.f}]
     [] e.ev = "SubmitRet" /\ Has(st.tmo, e.f) -> [st EXCEPT !.hi = Put(@, e.f, e.t + st.tmo[e.f])]
     [] IsTimeoutCancel(e) /\ Has(st.att, e.f) -> [st EXCEPT !.att = Put(@, e.f, st.att[e.f] + 1)]
+    [] e.ev = "CancelArrivedRet" /\ e.s = "outer" /\ e.r = "timeout" -> [st EXCEPT !.busy = e.t]
     [] e.ev = "CancelCall" -> [st EXCEPT !.ucan = @ \cup {e.f}]
     [] e.ev = "InvokeEnd" -> [st EXCEPT !.endo = Put(@, e.f, <<IF e.a > 0 THEN 1 ELSE 0, e.b>>)]
     [] e.ev = "Observed" /\ e.s \in Terminal /\ ~Has(st.done, e.f) -> [st EXCEPT !.done = Put(@, e.f, e.t)]
@@ -49,14 +53,15 @@ Clauses(st, e) ==
   << <<"C09_NeverEarly",
         (IsTimeoutCancel(e) /\ Has(st.lo, e.f)) => e.t >= st.lo[e.f]>>,
      <<"C09_AtDeadline",
-        (IsTimeoutCancel(e) /\ Has(st.hi, e.f)) => e.t <= st.hi[e.f] + EPS>>,
+        \* (at the deadline - or, if the worker thread was still inside another future's cancel() then, as soon as it was out)
+        (IsTimeoutCancel(e) /\ Has(st.hi, e.f)) => e.t <= Max(st.hi[e.f], st.busy) + EPS>>,
      <<"C09_ExactlyOneAttempt",
         (IsTimeoutCancel(e) /\ Has(st.att, e.f)) => st.att[e.f] = 0>>,
      <<"C09_NoneIfDoneBefore",
         (IsTimeoutCancel(e) /\ Has(st.lo, e.f) /\ Has(st.done, e.f)) => st.done[e.f] >= st.lo[e.f]>>,
      <<"C09_AttemptedIfOverdue",
         e.ev = "End" => \A f \in DOMAIN st.hi :
-            (st.hi[f] + EPS < e.t /\ (~Has(st.done, f) \/ st.done[f] > st.hi[f] + EPS)) => st.att[f] = 1>>,
+            (Max(st.hi[f], st.busy) + EPS < e.t /\ (~Has(st.done, f) \/ st.done[f] > Max(st.hi[f], st.busy) + EPS)) => st.att[f] = 1>>,
      <<"C09_OutcomeKept",
         (e.ev = "Observed" /\ e.s = "FINISHED") => (Has(st.endo, e.f) /\ st.endo[e.f] = <<e.a, e.b>>)>>,
      <<"C09_CancelledOnlyIfAttempted",
